@@ -276,6 +276,51 @@ def deep_tree(s, rng):
             break
 
 
+def multi_prefix(s, rng):
+    """pagination across the prefixes of one webentity: pages under the http and the https variation of a site, the two
+    sub-trees of different shape (insertion order), the first pages of the later prefix uncrawled / with links that a
+    filter rejects, every small page size in every mode - the page boundary then falls on every position, in particular
+    exactly between two prefixes"""
+    if rng.random() > 0.15:
+        return
+    s.notes = getattr(s, "notes", [])
+    s.notes.append("multi_prefix")
+    host = rng.choice([b"mp", b"mq"])
+    A, B = b"s:http|h:com|h:" + host + b"|", b"s:https|h:com|h:" + host + b"|"
+    other = [b"s:http|h:org|h:other%d|p:o|" % i for i in range(2)]
+    tails = [b"p:a|", b"p:b|", b"p:m|", b"p:m|p:k|", b"p:x|", b"p:x|p:y|", b""]
+    under = {}
+    for base in (A, B):
+        ts = rng.sample(tails, rng.randint(3, 6))
+        rng.shuffle(ts)
+        under[base] = [base + t for t in ts]
+        for l in under[base]:
+            # the later prefix tends to start with uncrawled pages
+            cr = rng.randint(0, 1) if base == A else (0 if rng.random() < 0.6 else 1)
+            s.do(2, [l, cr])
+    links = []
+    for base in (A, B):
+        for l in under[base]:
+            r = rng.random()
+            if r < 0.35:
+                links += [[l, rng.choice(other)]]                                     # outbound only
+            elif r < 0.7:
+                links += [[l, rng.choice(under[A] + under[B])]]                        # internal
+            elif r < 0.85:
+                links += [[l, rng.choice(other)], [l, rng.choice(under[A] + under[B])]]
+    if links:
+        s.do(4, [links])
+    wes = s.webentities()
+    for w, ps in wes.items():
+        if A in ps or B in ps:
+            for k in (1, 2, 3, rng.choice([4, 5, 6])):
+                s.paginate_pages(w, ps, k, 0, True)
+                s.paginate_pages(w, ps, k, 1, True)
+                for internal, outbound in ((1, 0), (0, 1), (1, 1)):
+                    s.paginate_links(w, ps, internal, outbound, k, True)
+            break
+
+
 def many_ids(s, rng):
     """webentity ids around the byte boundaries of the header field (255, 256, 257, 511, 512), then a restart"""
     if rng.random() > 0.07 or s.impl.backend != "f":
@@ -412,9 +457,9 @@ reg("C07", ["C07_net"], K.FACET_OPS["C07"], depth=2, nq=320, mixkw={"add_links":
 reg("C08", ["C08_pagelinks"], K.FACET_OPS["C08"], mixkw={"add_links": 30, "batch": 20, "create_we": 14})
 reg("C09", ["C09_token_roundtrip", "C09_sorted_pages", "C09_chunks", "C09_stable_chain"], K.FACET_OPS["C09"],
     mixkw={"add_page": 50, "add_pages": 20, "create_we": 14}, sweep=both_sweeps(helper_sweep(["token"]), perm_sweep(6)),
-    extra=[deep_tree])
+    extra=[deep_tree, multi_prefix])
 reg("C10", ["C10_chunks", "C10_same_links"], K.FACET_OPS["C10"], mixkw={"add_links": 35, "batch": 20, "create_we": 14},
-    extra=[deep_tree])
+    extra=[deep_tree, multi_prefix])
 reg("C12", ["C12_fresh"], set(), mixkw={"create_we": 16, "delete_we": 10, "add_rule": 10, "reopen": 10}, extra=[many_ids])
 reg("C13", ["C13_parents", "C13_children"], K.FACET_OPS["C13"], mixkw={"create_we": 18, "add_prefix": 12, "move_prefix": 8, "add_rule": 10})
 reg("C19", ["C19_trie_blocks", "C19_count_links", "C19_readd_no_growth"], K.FACET_OPS["C19"], sweep=both_sweeps(helper_sweep(["chunks"]), long_sweep), weird=0.45,
